@@ -173,7 +173,7 @@ check("C17", "model_checking",
       "explorer enumerates every chunking of the bytes and, deviation-bounded, a Pending answer, an empty chunk or a transport "
       "error at every poll; the flattened output is compared with a reference parse of the whole buffer; the buffers of <= 8 (10) "
       "bytes are explored a second time with the environment behind BodyStream, the wrapper every real request body passes through. "
-      "states = executions (distinct chunking/deviation sequences); transitions = choice points.",
+      "states = executions (distinct chunking/deviation sequences); transitions = choice points. Resume arm (record parsers, <= 8 (10) bytes): the injected transport error is recoverable, the transport goes on delivering the remaining bytes and the consumer keeps polling up to the second error item; no panic, and for bytes that decode completely the records that come out around the error are still a prefix of the encoded records.",
       [{"name": "parsers", "config": "A", "test": "verif::c17::run",
         "require": {"any": {"streams": 100, "distinct:parsers": 10}}}],
       assumptions=["process_slice_by_chunks / Chunk::unpack and ExactSizeStream are not part of this check yet"],
